@@ -132,6 +132,16 @@ theorem invs_stopBase {b : B} {s : Spec.Broker.S} (h : R b s) (c : Nat) (σ : Se
     refine ⟨x, hx, ?_⟩
     rw [← e]; split <;> rfl
 
+theorem mconns_markDead {b : B} {s : Spec.Broker.S} (h : R b s) (c : Nat) :
+    ((markDead b c).conns.map (·.id)).Nodup := by
+  have : (markDead b c).conns.map (·.id) = b.conns.map (·.id) := by
+    simp only [markDead, List.map_map]
+    apply List.map_congr_left
+    intro x _
+    simp only [Function.comp]
+    split <;> rfl
+  rw [this]; exact h.mconns
+
 /-- the trie after `unsubAll` of the session's topics holds what the reference
 broker holds once the connection's subscriptions have stopped -/
 theorem held_stopBase {b : B} {s : Spec.Broker.S} (h : R b s) (c : Nat) (σ : Sess)
@@ -194,8 +204,8 @@ theorem R_stopBase {b : B} {s : Spec.Broker.S} (h : R b s) {c : Nat} {cn : Conn}
     show heldOfL (s.held.filter (fun h => h.owner != c)) c' = _
     rw [heldOfL_filter s.held _ c c' (fun _ => true) (fun x => by simp [bne])]
     simp [hne]
-  refine ⟨i1, i2, i3, h.overlap, held_stopBase h c σ hrel.topics, ?_, ?_, by rw [hrr]; exact h.rets, h.retsOk,
-    by unfold IdsOk; rw [hrr]; exact h.retIds, ?_, ?_, ?_, ?_, ?_, ?_⟩
+  refine ⟨i1, i2, i3, held_stopBase h c σ hrel.topics, ?_, ?_, by rw [hrr]; exact h.rets, h.retsOk,
+    by unfold IdsOk; rw [hrr]; exact h.retIds, ?_, mconns_markDead h c, ?_, ?_, ?_, ?_, ?_⟩
   · intro x hx; exact h.heldGood x (List.mem_filter.mp hx).1
   · intro x hx hlt
     obtain ⟨hx1, hx2⟩ := List.mem_filter.mp hx
@@ -309,8 +319,8 @@ theorem R_setSess_dead {b : B} {s : Spec.Broker.S} (h : R b s) (σ0 σ' : Sess) 
     simp only [Mqtt.Proofs.BrokerQos.pub2inOf, hσ] at this
     rw [hq]; exact this
   refine ⟨Mqtt.Proofs.Broker.Inv_setSess b σ' h.inv, Mqtt.Proofs.BrokerLife.inv_setSess h.linv hσ rfl hcid hw,
-    Mqtt.Proofs.BrokerQos.BInv.setSess h.qinv hσ hqi, h.overlap, h.held, h.heldGood, h.owners, h.rets, h.retsOk, h.retIds,
-    h.connLt, h.sconns, h.connsIff, ?_, ?_, ?_⟩
+    Mqtt.Proofs.BrokerQos.BInv.setSess h.qinv hσ hqi, h.held, h.heldGood, h.owners, h.rets, h.retsOk, h.retIds,
+    h.connLt, h.mconns, h.sconns, h.connsIff, ?_, ?_, ?_⟩
   · intro c τ hτ
     rw [hls] at hτ
     obtain ⟨k, hk, hrel⟩ := h.live c τ hτ
@@ -393,8 +403,8 @@ and that no live connection uses -/
 theorem R_storeDel {b : B} {s : Spec.Broker.S} (h : R b s) (x : Bytes) (hres : resumable b x = none)
     (hfree : ∀ c τ, liveSess b c = some τ → τ.cid ≠ x) : R (b.storeDel x) s := by
   refine ⟨Mqtt.Proofs.Broker.Inv_storeDel b x h.inv, Mqtt.Proofs.BrokerLife.inv_storeDel h.linv x,
-    h.qinv.same (Mqtt.Proofs.BrokerQos.same_of_eq rfl rfl rfl), h.overlap, h.held, h.heldGood, h.owners, h.rets,
-    h.retsOk, h.retIds, h.connLt, h.sconns, h.connsIff, ?_, h.cidUniq, ?_⟩
+    h.qinv.same (Mqtt.Proofs.BrokerQos.same_of_eq rfl rfl rfl), h.held, h.heldGood, h.owners, h.rets,
+    h.retsOk, h.retIds, h.connLt, h.mconns, h.sconns, h.connsIff, ?_, h.cidUniq, ?_⟩
   · intro c τ hτ
     have hτ' : liveSess b c = some τ := hτ
     obtain ⟨k, hk, hrel⟩ := h.live c τ hτ'
